@@ -67,6 +67,7 @@ type finding struct {
 	Class    string `json:"class"`
 	SigRegex string `json:"sig_regex"`
 	Text     string `json:"text"`
+	Replay   string `json:"replay,omitempty"` // recorded history, relative to /verif
 }
 
 type findingsFile struct {
@@ -465,6 +466,33 @@ func doCheck(chk *meta.Check, tier string, seed uint64, runsOverride int, onlyBa
 			continue
 		}
 		unknown = append(unknown, v)
+	}
+	// every finding listed for this property is reported on every run: from the
+	// batch if it showed up there, and from its recorded history
+	for i := range ff.Findings {
+		f := &ff.Findings[i]
+		if f.Property != chk.ID {
+			continue
+		}
+		k := f.ID + "\x00" + f.Property + "\x00" + f.Text
+		seen := known[k]
+		delete(known, k)
+		repro := "no recorded history"
+		if f.Replay != "" {
+			repro = "recorded history does not reproduce on this tree/harness"
+			if b, err := os.ReadFile(filepath.Join(verifDir, f.Replay)); err == nil {
+				var rf replayFile
+				if json.Unmarshal(b, &rf) == nil && rf.Tape != nil {
+					res := runTapes(bi, rf.Property, meta.Batch{World: rf.World, Profile: rf.Profile, PerProc: 1}, [][]uint32{rf.Tape, rf.Tape, rf.Tape}, false)
+					for _, rr := range res {
+						if rr.Violation != nil && matchFinding(findingsFile{Findings: []finding{*f}}, chk.ID, rr.Violation) != nil {
+							repro = "recorded history " + f.Replay + " reproduces it"
+						}
+					}
+				}
+			}
+		}
+		fmt.Printf("KNOWN-FINDING: property=%s %s [%s; seen in %d runs of this batch; %s]\n", chk.ID, f.Text, f.ID, seen, repro)
 	}
 	for _, k := range sortedKeysInt(known) {
 		p := strings.Split(k, "\x00")
